@@ -24,8 +24,8 @@ type c01bCase struct {
 	PauseUs   int    `json:"pause_us"` // virtual pause between chunks
 	Ops       []int  `json:"ops"`      // client-side operations performed meanwhile, one per chunk boundary (cycled): 0 Connect another namespace, 1 Manager.Open(), 2 Socket(ns) only, 3 OnEvent/OffEvent, 4 Connect() on the connected socket, 5 Disconnect + Connect of a side namespace
 	OpEvery   int    `json:"op_every"` // an operation every n-th received event (from inside the handler) as well (0 = never)
-	// operation 5 calls Connect() right after Disconnect() (true) or 2 ms later (false). Back to back, the server may handle the CONNECT
-	// packet before the DISCONNECT packet (a goroutine per packet) and close the whole connection: known finding KF-C05-1.
+	// operation 5 calls Connect() right after Disconnect() (true) or 2 ms later (false). Back to back, the server used to handle the CONNECT
+	// packet before the DISCONNECT packet now and then (a goroutine per packet) and close the whole connection (fixed, see known_findings.txt).
 	RejoinAtOnce bool `json:"rejoin_at_once"`
 }
 
@@ -35,11 +35,10 @@ func evalC01b(c c01bCase) (f *Failure, nontrivial bool) {
 	for _, k := range c.Ops {
 		rejoinAtOnce = rejoinAtOnce || (k%6 == 5 && c.RejoinAtOnce)
 	}
+	if rejoinAtOnce {
+		class += ",rejoin-at-once"
+	}
 	fail := func(clause, detail string) *Failure {
-		if rejoinAtOnce {
-			// whatever the symptom, the class and clause name the known finding (see c01bCase.RejoinAtOnce)
-			return &Failure{Property: "C01", Check: c01bCheck, Clause: "connection-stays-up", Class: "rejoin-at-once", Detail: clause + ": " + detail, Case: c}
-		}
 		return &Failure{Property: "C01", Check: c01bCheck, Clause: clause, Class: class, Detail: detail, Case: c}
 	}
 	journal(c01bCheck, class, c)
@@ -96,8 +95,8 @@ func evalC01b(c c01bCase) (f *Failure, nontrivial bool) {
 			mu.Unlock()
 			if c.OpEvery > 0 && n%c.OpEvery == 0 && len(c.Ops) > 0 {
 				k := c.Ops[n%len(c.Ops)]
-				if k%6 == 5 && !c.RejoinAtOnce {
-					k = 0 // handlers run concurrently: Disconnect/Connect pairs of several goroutines on one socket would again put control packets back to back (KF-C05-1)
+				if k%6 == 5 {
+					k = 0 // handlers run concurrently: several goroutines toggling ONE socket is C16's subject, not this check's
 				}
 				op(k)
 			}
@@ -166,15 +165,6 @@ func TestC01_BusyManager(t *testing.T) {
 		"namespace - from the main goroutine between chunks and optionally from inside the event handler; oracle: every event delivered exactly once with both attachments and the string in place, no close / "+
 		"error / disconnect reported; non-trivial = >= 2 kinds of operations")
 	rapidGuard(t, "C01", c01bCheck)
-	kf := kfActive("KF-C05-1", func() (bool, string) {
-		for i := 0; i < 6; i++ {
-			f, _ := evalC01b(c01bCase{Transport: []string{"websocket", "polling"}[i%2], Events: 300, Chunk: 1, PauseUs: 100, Ops: []int{5}, OpEvery: 3, RejoinAtOnce: true})
-			if f != nil && f.Class == "rejoin-at-once" {
-				return true, f.Detail
-			}
-		}
-		return false, ""
-	})
 	runRapid(t, c01bCheck, tierN(1600, 30000), func(t *rapid.T) {
 		c := c01bCase{Transport: rapid.SampledFrom([]string{"polling", "websocket", "websocket", "upgrade"}).Draw(t, "transport"), Events: rapid.IntRange(50, 600).Draw(t, "events"),
 			Chunk: rapid.SampledFrom([]int{1, 5, 25}).Draw(t, "chunk"), PauseUs: rapid.SampledFrom([]int{30, 100, 1000}).Draw(t, "pause"), OpEvery: rapid.SampledFrom([]int{0, 0, 3, 10}).Draw(t, "opEvery")}
@@ -182,10 +172,6 @@ func TestC01_BusyManager(t *testing.T) {
 			c.Ops = append(c.Ops, rapid.IntRange(0, 5).Draw(t, "op"))
 		}
 		c.RejoinAtOnce = rapid.Bool().Draw(t, "rejoinAtOnce")
-		if kf && c.RejoinAtOnce {
-			c.RejoinAtOnce = false
-			ev.Excluded("KF-C05-1")
-		}
 		f, nt := evalC01b(c)
 		ev.Case(c, nt, c.Transport)
 		if nt {
